@@ -28,7 +28,7 @@ func starts() []start {
 
 	return []start{
 		{Name: "fresh", Depth: [2]int{5, 6}},
-		{Name: "bound", Prefix: bound, Depth: [2]int{4, 6}},
+		{Name: "bound", Prefix: bound, Depth: [2]int{4, 5}},
 		{Name: "aged", Prefix: aged, Depth: [2]int{3, 5}},
 		{Name: "fresh-core", Depth: [2]int{6, 7}, Core: true},
 		{Name: "bound-core", Prefix: bound, Depth: [2]int{5, 6}, Core: true},
